@@ -34,6 +34,22 @@ LOG = []          # (impl id, args, caller) appended by generated implementation
 SCRIPT = {}       # impl id -> list of outcomes to produce, consumed per invocation
 
 
+class _Outer:
+    class VerifError(Exception):
+        """Same class NAME as the module-level one, defined inside another class."""
+
+
+def _local_error_class():
+    class VerifError(Exception):
+        """Same class name, local to a function."""
+    return VerifError
+
+
+def err_class(token):
+    """org.txdbus.PythonException.<Class>: the class name, wherever the class is defined."""
+    return (VerifError, _Outer.VerifError, _local_error_class())[len(token) % 3]
+
+
 class VerifError(Exception):
     pass
 
@@ -215,23 +231,23 @@ def outcome_for(r, sig_out, token):
     if k < 0.5:
         return ('deferred-value', ret), ('return', expect_body)
     if k < 0.58:
-        return ('deferred-fail', VerifError('late failure ' + token)), ('error', 'org.txdbus.PythonException.VerifError',
+        return ('deferred-fail', err_class(token)('late failure ' + token)), ('error', 'org.txdbus.PythonException.VerifError',
                                                                         'late failure ' + token)
     if k < 0.70:
-        e = VerifError('boom ' + token)
+        e = err_class(token)('boom ' + token)
         return ('raise', e), ('error', 'org.txdbus.PythonException.VerifError', 'boom ' + token)
     if k < 0.78:
-        e = VerifError('named ' + token)
+        e = err_class(token)('named ' + token)
         e.dbusErrorName = 'org.verif.Error.Custom'
         return ('raise', e), ('error', 'org.verif.Error.Custom', 'named ' + token)
     if k < 0.86:
-        e = VerifError('badname ' + token)
+        e = err_class(token)('badname ' + token)
         e.dbusErrorName = r.choice(['nodots', '1.starts.with.digit', 'a..b', 'has space.x', ''])
         if e.dbusErrorName == '':
             e.dbusErrorName = 'x y'
         return ('raise', e), ('error', 'org.txdbus.InvalidErrorName', 'badname ' + token)
     if k < 0.90:
-        e = VerifError('nul\0text ' + token)
+        e = err_class(token)('nul\0text ' + token)
         return ('raise', e), ('error', 'org.txdbus.PythonException.VerifError', None)
     # value not encodable under the declared signature
     if nret == 0:
